@@ -83,7 +83,7 @@ fn atoms_conserved(name: &str, m0: &M, out: &Outcome) -> Option<(String, String)
 
 pub fn unary(ctx: &mut Ctx) {
     let mut real = Real::new();
-    let s = if ctx.tier_thorough { 5 } else { 4 };
+    let s = if ctx.tier_thorough { 6 } else { 4 };
     let trees = trees_up_to(s, &atoms6());
     ctx.extra.push(("trees".into(), crate::core::J::Int(trees.len() as i64)));
     for t in &trees {
@@ -290,7 +290,7 @@ fn atoms2() -> Vec<Tree> {
 /// deeper trees over a 2-atom alphabet: index arithmetic after (several) nested lists
 pub fn deep(ctx: &mut Ctx) {
     let mut real = Real::new();
-    let s = if ctx.tier_thorough { 7 } else { 6 };
+    let s = if ctx.tier_thorough { 8 } else { 6 };
     let ts = trees_up_to(s, &atoms2());
     let us = trees_up_to(3, &atoms2());
     ctx.extra.push(("deep_trees".into(), crate::core::J::Int(ts.len() as i64)));
